@@ -14,12 +14,6 @@ import Gojq.Model.Pairs
 namespace Gojq.Pairs
 open Gojq
 
-/-- the Go `int` a number path element denotes (`toInt`: truncating, saturating) -/
-def idxOf (m : Num) : Int := (toInt? (.num m)).getD 0
-
-/-- key/index path: strings and numbers only -/
-def KIPath (p : List JV) : Prop := ∀ e ∈ p, (∃ k, e = .str k) ∨ (∃ m, e = .num m)
-
 theorem KIPath.nil : KIPath [] := by intro e he; cases he
 
 theorem KIPath.cons {e : JV} {p : List JV} (he : (∃ k, e = .str k) ∨ (∃ m, e = .num m)) (hp : KIPath p) :
